@@ -172,4 +172,11 @@ def run(chk, facts_dir, tier):
     chk.floor("R5.4", n_err, 1)
     # ---------------- R1.7 (shared with C01)
     c01.check_truncation_marker(chk, prog, "R1.7")
+    # ---------------- R5.5 after a reopen the writer continues from the NEWEST sealed segment
+    chk.rule("R5.5", "CONTINUE FROM THE NEWEST SEGMENT: the writer's fallback lookups of a stream's latest version and a partition's latest sequence - the only source of the next "
+                     "version / sequence after a reopen, when the in-memory cache is empty - walk the sealed segments newest first; otherwise the first append after recovery "
+                     "re-uses sequences that acknowledged events already hold (shared with C02 R2.3)")
+    from . import c02
+    sprog = prog if "sierradb::writer_thread_pool::WriterSet::read_partition_latest_sequence" in prog.bodies else Program(facts_dir, crates=["sierradb-lib"])
+    c02.newest_first(chk, sprog, "R5.5", (c02.WS + "read_stream_latest_version", c02.WS + "read_partition_latest_sequence"), 2)
     return {}
